@@ -118,7 +118,7 @@ def roundtrip_part(ctx: vlib.Ctx):
                            "MappingProxyType, Counter, ChainMap) and leaf/enum/bytes-typed mapping keys (under vals_ok: wire forms of the keys present pairwise distinct) are inside the Coq grammar. NamedTuple (as_list form), "
                            "TypedDict (total / total=False / Required / NotRequired) and tuples with an unpacked segment are inside the Coq grammar (theorems + correspondence); the round-trip "
                            "theorem states = on TypedDict values whose keys are in the decoder's order (conf_ord), the oracle compares with == on values "
-                           "in shuffled insertion order; namedtuple_as_dict, generic NamedTuples/TypedDicts and collections.namedtuple are oracle only")
+                           "in shuffled insertion order; namedtuple_as_dict (dialect option), generic NamedTuples/TypedDicts and collections.namedtuple are oracle only")
     cases, bad, log = tycorr.run(ctx, "c01_ty", ctx.budget(50, 400), 3, depth=3, foreign=1)
     hits = tyoracle.report_corr(ctx, "TyModel (pk, uk) vs BasicEncoder/BasicDecoder", cases, bad, log)
     n = ctx.budget(900, 6000) if not hits else ctx.budget(2500, 12000)
@@ -152,6 +152,37 @@ def roundtrip_part(ctx: vlib.Ctx):
         for n_ in t.walk():
             ctx.hist("oracle_type_constructors", n_.kind)
         fam.dispose()
+
+
+def as_dict_part(ctx: vlib.Ctx):
+    """NamedTuples in the dict form (dialect option namedtuple_as_dict, or Config option of a holder dataclass): decode(encode(v)) == v, also for values whose defaulted
+    items equal their defaults"""
+    from harness import gen, tyoracle
+    from mashumaro.codecs.basic import BasicDecoder, BasicEncoder
+    for fam, ns, t, ty, dia in tyoracle.as_dict_stream(ctx.rng, ctx.budget(40, 250)):
+        try:
+            kw = {"default_dialect": dia} if dia else {}
+            enc, dec = BasicEncoder(ty, **kw), BasicDecoder(ty, **kw)
+        except Exception as e:
+            ctx.fail(f"as_dict codec for {gen.py_ann(t)} cannot be built: {type(e).__name__}: {e}",
+                     {"entry": "codec_build", "source": fam.source(), "type": gen.py_ann(t), "expected": "ok"}, {"kind": "codec-build"})
+            continue
+        vg = gen.ValueGen(ctx.rng, fam)
+        for _ in range(3):
+            v = vg.value(t)
+            ctx.count((t.key(), "as_dict", repr(v)))
+            ctx.hist("as_dict_root", t.kind if dia else "config")
+            try:
+                back = dec.decode(enc.encode(v))
+                ok = gen.same(back, v)
+                obs = "ok:" + gen.py_src(back)
+            except Exception as e:
+                ok = False
+                obs = f"exc:{type(e).__name__}"
+            if not ok:
+                ctx.fail(f"{gen.py_ann(t)}: as_dict round trip of {gen.py_src(v)[:200]} gives {obs[:200]}",
+                         {"entry": "codec_roundtrip_as_dict" if dia else "codec_roundtrip", "source": fam.source(), "type": gen.py_ann(t), "input_src": gen.py_src(v),
+                          "observed": obs, "expected": "ok:" + gen.py_src(v)}, {"kind": "roundtrip"})
 
 
 def scenario_part(ctx: vlib.Ctx):
@@ -207,6 +238,7 @@ def run(ctx: vlib.Ctx):
                             "distinct = (type tree, value) pairs")
     tz_part(ctx)
     roundtrip_part(ctx)
+    as_dict_part(ctx)
     scenario_part(ctx)
 
 
